@@ -22,13 +22,18 @@ def unordered_sym(p):
     R = sum(Ks)
     buf = sym_int("mergebuf", 1, R + 1)
     mm = sym_int("max_merge", 1, len(Ks) + 1)
-    chunks = ({"bin1_id": SArr(b1, "int64"), "bin2_id": SArr(b2, "int64"), "count": SArr(v, "int32")} for b1, b2, v in tables)
+    fl = p.get("float_counts")
+    if fl:
+        from engine.symcore import SReal
+        tables = [(b1, b2, [SReal.of(x) / 4 for x in v]) for b1, b2, v in tables]   # quarter counts through dtypes={"count": float}
+    chunks = ({"bin1_id": SArr(b1, "int64"), "bin2_id": SArr(b2, "int64"), "count": SArr(v, "float64" if fl else "int32")} for b1, b2, v in tables)
     out = scratch_file("c06_out.cool")
     cover("two_pass", mm < len(Ks))
     cover("empty_chunk", any(K == 0 for K in Ks))
     cover("repeated_pixel", or_(*[and_(x == y, xx == yy) for i in range(len(tables)) for j in range(i)
                                   for x, xx in zip(tables[i][0], tables[i][1]) for y, yy in zip(tables[j][0], tables[j][1])]))
-    sc.create_cooler(out, bins, chunks, ordered=False, symmetric_upper=upper, mergebuf=buf, max_merge=mm)
+    sc.create_cooler(out, bins, chunks, ordered=False, symmetric_upper=upper, mergebuf=buf, max_merge=mm,
+                     **({"dtypes": {"count": np.dtype("float64")}} if fl else {}))
     for cond, msg in validity_sym(out):
         prove(cond, "unordered output: " + msg)
     pix, attrs = read_pixels_sym(out)
@@ -50,12 +55,16 @@ def unordered_real(p, inputs):
     layout, Ks, upper = p["layout"], p["Ks"], p["upper"]
     bins = concrete_bins(layout, p["kind"])
     tables = [pixels_from_inputs(inputs, K, prefix=f"t{i}_") for i, K in enumerate(Ks)]
-    chunks = ({"bin1_id": np.array(b1, dtype=np.int64), "bin2_id": np.array(b2, dtype=np.int64), "count": np.array(v, dtype=np.int32)}
+    fl = p.get("float_counts")
+    if fl:
+        tables = [(b1, b2, [x / 4 for x in v]) for b1, b2, v in tables]
+    chunks = ({"bin1_id": np.array(b1, dtype=np.int64), "bin2_id": np.array(b2, dtype=np.int64), "count": np.array(v, dtype=np.float64 if fl else np.int32)}
               for b1, b2, v in tables)
     out = scratch_file("c06_out.cool")
     import os
     before = set(os.listdir(os.path.dirname(out)))
-    cooler.create_cooler(out, bins, chunks, ordered=False, symmetric_upper=upper, mergebuf=inputs["mergebuf"], max_merge=inputs["max_merge"])
+    cooler.create_cooler(out, bins, chunks, ordered=False, symmetric_upper=upper, mergebuf=inputs["mergebuf"], max_merge=inputs["max_merge"],
+                         **({"dtypes": {"count": np.dtype("float64")}} if fl else {}))
     validity_real(out)
     exp = {}
     for b1, b2, v in tables:
@@ -80,6 +89,8 @@ def _cases(tier):
             if not upper and len(Ks) > 3:
                 continue
             out.append(dict(layout=list(layout), kind=kind, Ks=list(Ks), upper=upper))
+    # a user dtype for the value column (float with fractional values) must survive both merge passes
+    out.append(dict(layout=[2], kind="fixed", Ks=[1, 1, 1], upper=True, float_counts=True))
     return out
 
 
